@@ -94,6 +94,12 @@ class Memory:
         if ty.k == 'double':
             r = s.load(st, INT64_, p)
             return s.coerce(r, ty)
+        if ty.k == 'ptr':
+            # a pointer-typed load of bytes that hold plain integer data (unions copied word by word, e.g. rapidjson's short strings):
+            # the bit pattern travels in a pointer-typed register ('ip') and can only be stored again or viewed as an integer
+            r = s.load(st, INT64_, p)
+            if r[0] == 'i': return ('ip', r)
+            return s.coerce(r, ty)
         if ty.k == 'int':
             parts = []; pos = off
             while pos < off + n:
@@ -126,10 +132,12 @@ class Memory:
                 if isinstance(v[1], float): return iv(64, d2bits(v[1]))
                 return ('fi', v)
             if v[0] in ('pi', 'fi', 'undef'): return v
+            if v[0] == 'ip' and v[1][1] == ty.a: return v[1]
         elif k == 'ptr':
-            if v[0] in ('p', 'fn', 'undef'): return v
+            if v[0] in ('p', 'fn', 'undef', 'ip'): return v
             if v[0] == 'pi': return v[1]
             if v[0] == 'i' and v[2] == 0: return NULL
+            if v[0] == 'i' and v[1] == 64: return ('ip', v)
         elif k == 'double':
             if v[0] == 'f': return v
             if v[0] == 'fi': return v[1]
@@ -170,6 +178,7 @@ class Memory:
         s.note_write(st, o, off)
         if v[0] == 'fi': v = v[1]
         elif v[0] == 'pi': v = v[1]
+        elif v[0] == 'ip': v = v[1]
         for k in s.overlapping(o, off, n):
             cn, cv = o.cells[k]
             del o.cells[k]
